@@ -275,6 +275,14 @@ def build(desc, transcribe=True, solver=True, extra_phys=False):
         b.con_exprs = []
         for con in desc['cons']:
             offs = [ocp.offset(E.to_casadi(e, sym_base), int(o)) for (e, o) in con.get('offs', [])]
+            if con['grid'] == 'inf':
+                # special operands of an inf constraint: ('inert', expr) | ('der', state index)  (scalar states)
+                offs = []
+                for op in con.get('infops', []):
+                    if op[0] == 'inert':
+                        offs.append(ocp.inf_inert(E.to_casadi(op[1], sym_base)))
+                    else:
+                        offs.append(ocp.inf_der(b.states[op[1]]))
 
             def sym_con(kind, i, offs=offs):
                 if kind == 'off':
@@ -296,8 +304,9 @@ def build(desc, transcribe=True, solver=True, extra_phys=False):
             kwc = {}
             if con['grid'] != 'point':
                 kwc['grid'] = {'roots': 'integrator_roots'}.get(con['grid'], con['grid'])
-                kwc['include_first'] = bool(con.get('first', True))
-                kwc['include_last'] = bool(con.get('last', True))
+                if con['grid'] != 'inf':
+                    kwc['include_first'] = bool(con.get('first', True))
+                    kwc['include_last'] = bool(con.get('last', True))
             sc = con.get('scale')
             if sc is not None:
                 kwc['scale'] = ca.DM([float(v) for v in sc]) if len(sc) > 1 else float(sc[0])
